@@ -39,6 +39,7 @@ package tlv
 //@
 //@ func (s *Stream) decode
 //@   props C10
+//@   bounds-safe
 //@   requires s != nil
 //@   loop 0 invariant recordIdx >= 0
 //@   loop 0 step !prev(overflow) && typ >= prev(min) && min == wrap(typ + 1, 64) &&
